@@ -75,8 +75,10 @@ def requests(ctx):
     # 1..n value-change blocks, snapshot as frame or as records, packed / ASCII / 1-bit record forms, raw / zlib streams
     from . import ghwgen
     for _ in range(400 if quick else 6000):
-        d, _g, _v, f, e = ghwgen.gen_triple(rng)
-        rq.append(f"fstfile {d} {e} {f.hex()}")
+        dups = [] if rng.random() < 0.6 else None
+        d, _g, _v, f, e = ghwgen.gen_triple(rng, dups=dups)
+        # a 5th field lists the time-table positions a later block repeats (the table then holds that time twice)
+        rq.append(f"fstfile {d} {e} {f.hex()}" + (f" {','.join(dups)}" if dups else ""))
     return rq
 
 
